@@ -65,7 +65,7 @@ def _get_uses_of(node: ast.AST, scope: ast.AST, source: str) -> Iterable[ast.Nam
 
     ctx_store_candidates = {
         refnode
-        for refnode in core.walk(scope, ast.Name(ctx=ast.Store, id=name))
+        for refnode in core.walk(scope, ast.Name(ctx=(ast.Store, ast.Del), id=name))
         if refnode is not node and refnode not in blacklisted_names
     }
 
